@@ -7,7 +7,7 @@ from . import c14
 
 ID = "C08"
 MODEL = "CLIENT"
-PROP_MODULES = ["WV.Props.C08"]
+PROP_MODULES = ["WV.Props.ClientSkel", "WV.Props.C08"]
 NATIVE_DECIDE_MODULES = ["WV.Proofs.ClientCert"]
 TRUSTED = c14.TRUSTED
 RULE = ("guided random schedules of the mailbox World as for C14, each followed by a cooperative completion phase "
